@@ -52,13 +52,13 @@ type Ctx struct {
 	InlineLog []string
 	// RuleAlias, when set, replaces the rule id of every obligation recorded (a rule shared by another property).
 	RuleAlias string
-	RepoDir string
-	Fset    *token.FileSet
-	Pkgs    []*packages.Package
-	ByPath  map[string]*packages.Package
-	Prog    *ssa.Program
-	SSA     map[string]*ssa.Package
-	Tier    string
+	RepoDir   string
+	Fset      *token.FileSet
+	Pkgs      []*packages.Package
+	ByPath    map[string]*packages.Package
+	Prog      *ssa.Program
+	SSA       map[string]*ssa.Package
+	Tier      string
 
 	Obls      []Obligation
 	FuncsSeen map[string]bool
